@@ -698,16 +698,12 @@ def c10l(ctx):
                    if keyword(x, 'mask', 2) is not None and unparse(keyword(x, 'mask', 2)) == unparse(x.args[0])]
     comps = g.find(lambda x: is_call(x, 'Image.alpha_composite'))
     rgba = lambda at: at.op == '==' and '.mode' in at.text and "'RGBA'" in at.text
+    capable = lambda at: at.op is None and at.mentions(lambda y: is_call(y, 'hasattr'))
+
     def only_without_alpha(n, x):
-        """not on an RGBA canvas -- or in the else branch of `canvas is RGBA and <the library can composite>`"""
-        if g.guarded(n, rgba, False):
-            return True
-        iff = enclosing(x, ast.If)
-        if iff is None or not any(inside(x, s_) or x is s_ for s_ in iff.orelse):
-            return False
-        ats = implied(iff.test, True)
-        return any(rgba(at) and p is True for at, p in ats) and \
-            all((rgba(at) and p is True) or (p is True and at.op is None and at.mentions(lambda y: is_call(y, 'hasattr'))) for at, p in ats)
+        """not on an RGBA canvas -- or only where `canvas is RGBA and <the library can composite>` is false: every way to the
+        paste takes an edge on which one of the two is false"""
+        return g.guarded(n, rgba, False) or g.guarded_any(n, [(rgba, False), (capable, False)])
     ok = all(only_without_alpha(n, x) for n, x in self_masked) and bool(comps) and all(g.guarded(n, rgba, True) for n, x in comps)
     ctx.check(ok, 'mask_image_source_from_coverage:composited-on-transparent-canvas',
               'on an RGBA canvas the clipped image is alpha-composited; paste-with-itself only on canvases without alpha', fn,
